@@ -427,18 +427,25 @@ func TestLateRegistrations(t *testing.T) {
 		// however often RunHandlers is called later for other handlers
 		nDec := rapid.IntRange(0, 2).Draw(t, "decoratorsBeforeRun")
 		wantPub, wantSub := "", ""
-		for d := 0; d < nDec; d++ {
-			pd, sd := fmt.Sprintf("P%d,", d), fmt.Sprintf("S%d,", d)
-			wantPub, wantSub = wantPub+pd, wantSub+sd
-			router.AddPublisherDecorators(message.MessageTransformPublisherDecorator(func(m *message.Message) { m.Metadata["pubdec"] += pd }))
-			router.AddSubscriberDecorators(message.MessageTransformSubscriberDecorator(func(m *message.Message) { m.Metadata["subdec"] += sd }))
+		decN := 0
+		addDecorators := func(n int) {
+			for d := 0; d < n; d++ {
+				pd, sd := fmt.Sprintf("P%d,", decN), fmt.Sprintf("S%d,", decN)
+				decN++
+				wantPub, wantSub = wantPub+pd, wantSub+sd
+				router.AddPublisherDecorators(message.MessageTransformPublisherDecorator(func(m *message.Message) { m.Metadata["pubdec"] += pd }))
+				router.AddSubscriberDecorators(message.MessageTransformSubscriberDecorator(func(m *message.Message) { m.Metadata["subdec"] += sd }))
+			}
 		}
+		addDecorators(nDec)
 		type hT struct {
 			name     string
 			sub      *lib.ScriptSub
 			pub      *lib.ScriptPub
 			expected []int
 			sawSub   string
+			wantPub  string // the decorators registered before this handler was started, in order
+			wantSub  string
 		}
 		addHandler := func(name string) *hT {
 			h := &hT{name: name, sub: lib.NewScriptSub(""), pub: lib.NewScriptPub("")}
@@ -495,19 +502,20 @@ func TestLateRegistrations(t *testing.T) {
 			mu.Lock()
 			sawSub := h.sawSub
 			mu.Unlock()
-			if sawSub != wantSub {
-				t.Fatalf("violation: message of handler %q went through the subscriber decorators [%s], registered: [%s]", h.name, sawSub, wantSub)
+			if sawSub != h.wantSub {
+				t.Fatalf("violation: message of handler %q went through the subscriber decorators [%s], registered before it was started: [%s]", h.name, sawSub, h.wantSub)
 			}
 			calls := h.pub.Calls()
 			if len(calls) == 0 || len(calls[len(calls)-1].Snaps) != 1 {
 				t.Fatalf("violation: handler %q: output not published once (%d Publish calls)", h.name, len(calls))
 			}
-			if gotPub := calls[len(calls)-1].Snaps[0].Meta["pubdec"]; gotPub != wantPub {
-				t.Fatalf("violation: output of handler %q went through the publisher decorators [%s], registered: [%s]", h.name, gotPub, wantPub)
+			if gotPub := calls[len(calls)-1].Snaps[0].Meta["pubdec"]; gotPub != h.wantPub {
+				t.Fatalf("violation: output of handler %q went through the publisher decorators [%s], registered before it was started: [%s]", h.name, gotPub, h.wantPub)
 			}
 		}
 		addRouterLevel("routerLevelBeforeRun")
 		first := addHandler("first")
+		first.wantPub, first.wantSub = wantPub, wantSub
 		go router.Run(context.Background())
 		select {
 		case <-router.Running():
@@ -533,10 +541,14 @@ func TestLateRegistrations(t *testing.T) {
 			} else {
 				addRouterLevel("routerLevelLate")
 			}
+			// decorators may be added to a running router too: they act on the handlers that are started afterwards
+			addDecorators(rapid.SampledFrom([]int{0, 0, 1, 2}).Draw(t, "decoratorsAddedWhileRunning"))
 			n := rapid.IntRange(1, 2).Draw(t, "lateHandlers")
 			var hs []*hT
 			for i := 0; i < n; i++ {
-				hs = append(hs, addHandler(fmt.Sprintf("late-%d-%d", ph, i)))
+				h := addHandler(fmt.Sprintf("late-%d-%d", ph, i))
+				h.wantPub, h.wantSub = wantPub, wantSub
+				hs = append(hs, h)
 			}
 			if err := router.RunHandlers(context.Background()); err != nil {
 				t.Fatalf("RunHandlers: %v", err)
